@@ -100,12 +100,14 @@ func factNewUsesCryptoRand() int {
 		}
 		return true
 	})
+	_ = bufLen // (how many octets are drawn, and that none is reused, is checked behaviourally: op newstream)
 	if !usesRandRead || randPath == "" {
 		return 2
 	}
-	if randPath == "crypto/rand" && bufLen == "17" {
+	if randPath == "crypto/rand" {
 		return 1
 	}
+	// `rand.Read` of another package (math/rand …): determinately not the cryptographic source
 	return 0
 }
 
